@@ -1,2 +1,169 @@
+//! C15 — CL03 proof of knowledge of a signature: complete and bound to its statement.
+
+use crate::clutil::*;
 use crate::common::*;
-pub fn scenarios(_ctx: &Ctx) -> Vec<Scenario> { vec![] }
+use rug::Integer;
+use serde_json::{json, Value};
+use zkryptium::cl03::keys::CL03CommitmentPublicKey;
+use zkryptium::schemes::algorithms::CL03;
+use zkryptium::schemes::generics::{PoKSignature, Signature};
+use zkryptium::utils::message::cl03_message::CL03Message;
+
+type Pok<C> = PoKSignature<CL03<C>>;
+
+fn one<C: Cs>(ctx: &Ctx, st: &Setup<C>, other: Option<&Setup<C>>, r: &mut impl rand::RngCore, n: usize, u: Vec<usize>, tamper: bool) {
+    let bases = st.bases_n(n);
+    let cpk = st.cpk_n(n);
+    let mix = rand_range(r, 4);
+    let msgs = attributes::<C>(r, n, mix);
+    let case = format!("{}/n{}/U={:?}", C::NAME, n, u);
+    ctx.distinct(&case);
+    let sig = Signature::<CL03<C>>::sign_multiattr(st.pk(), st.sk(), &bases, &msgs);
+    let g = ctx.call("PoKSignature::proof_gen", &case, None, || Ok::<_, ()>(Pok::<C>::proof_gen(sig.cl03Signature(), &cpk, st.pk(), &bases, &msgs, &u)));
+    let Some(proof) = g.value else {
+        ctx.violation("C15:proof_gen-panicked", json!({"case":case,"outcome":g.outcome.short()}));
+        return;
+    };
+    let revealed: Vec<CL03Message> = (0..n).filter(|i| !u.contains(i)).map(|i| msgs[i].clone()).collect();
+    let verify = |p: &Pok<C>, ck: &CL03CommitmentPublicKey, pk: &zkryptium::cl03::keys::CL03PublicKey, b: &zkryptium::cl03::bases::Bases, rev: &[CL03Message], uu: &[usize], nn: usize| {
+        p.proof_verify(ck, pk, b, rev, uu, nn)
+    };
+    let ok = ctx.call("PoKSignature::proof_verify", &case, None, || Ok::<_, ()>(verify(&proof, &cpk, st.pk(), &bases, &revealed, &u, n)));
+    if ok.value != Some(true) {
+        ctx.violation("C15:honest-proof-rejected", json!({"case":case,"outcome":format!("{:?}/{}", ok.value, ok.outcome.short())}));
+        return;
+    }
+    // JSON round trip still verifies
+    let j = serde_json::to_value(&proof).unwrap();
+    match serde_json::from_value::<Pok<C>>(j.clone()) {
+        Ok(p2) if p2 == proof && verify(&p2, &cpk, st.pk(), &bases, &revealed, &u, n) => {}
+        _ => ctx.violation("C15:json-roundtrip", json!({"case":case})),
+    }
+    let reject = |kind: &str, f: &dyn Fn() -> bool| {
+        let full = format!("{}/{}", case, kind);
+        ctx.distinct(&full);
+        let v = ctx.call("PoKSignature::proof_verify", &full, None, || Ok::<_, ()>(f()));
+        if v.value == Some(true) {
+            ctx.violation(&format!("C15:mismatch-accepted/{}", kind.split('#').next().unwrap()), json!({"case":full}));
+        }
+        if v.outcome.is_panic() {
+            ctx.count("proof_verify_panics(counted as not verifying)", 1);
+        }
+    };
+    // revealed attributes
+    for k in 0..revealed.len() {
+        let mut rv = revealed.clone();
+        rv[k].value = Integer::from(&rv[k].value ^ 1u32);
+        reject(&format!("revealed-attribute-changed#{k}"), &|| verify(&proof, &cpk, st.pk(), &bases, &rv, &u, n));
+        for j2 in k + 1..revealed.len() {
+            if revealed[k].value != revealed[j2].value {
+                let mut rv = revealed.clone();
+                rv.swap(k, j2);
+                reject(&format!("revealed-attributes-swapped#{k}-{j2}"), &|| verify(&proof, &cpk, st.pk(), &bases, &rv, &u, n));
+            }
+        }
+    }
+    // other signer key / bases / commitment key
+    let mut pk2 = st.pk().clone();
+    std::mem::swap(&mut pk2.b, &mut pk2.c);
+    reject("signer-key-b<->c", &|| verify(&proof, &cpk, &pk2, &bases, &revealed, &u, n));
+    if let Some(o) = other {
+        reject("signer-key-other", &|| verify(&proof, &cpk, o.pk(), &bases, &revealed, &u, n));
+        reject("commitment-key-other-modulus", &|| verify(&proof, &o.cpk_n(n), st.pk(), &bases, &revealed, &u, n));
+    }
+    let b2 = zkryptium::cl03::bases::Bases::generate(st.pk(), n);
+    reject("bases-other", &|| verify(&proof, &cpk, st.pk(), &b2, &revealed, &u, n));
+    if n > 1 {
+        let mut b3 = bases.clone();
+        b3.0.rotate_left(1);
+        reject("bases-rotated", &|| verify(&proof, &cpk, st.pk(), &b3, &revealed, &u, n));
+        let mut c3 = cpk.clone();
+        c3.g_bases.rotate_left(1);
+        reject("commitment-key-bases-rotated", &|| verify(&proof, &c3, st.pk(), &bases, &revealed, &u, n));
+    }
+    let c2 = CL03CommitmentPublicKey::generate::<C>(Some(st.pk().N.clone()), Some(n));
+    reject("commitment-key-other", &|| verify(&proof, &c2, st.pk(), &bases, &revealed, &u, n));
+    let mut c4 = cpk.clone();
+    c4.h = Integer::from(&c4.h * &c4.h) % &c4.N;
+    reject("commitment-key-h-squared", &|| verify(&proof, &c4, st.pk(), &bases, &revealed, &u, n));
+    // other hidden-position sets (same size: same number of revealed attributes)
+    for u2 in all_subsets(n) {
+        if u2 != u {
+            let rev2: Vec<CL03Message> = if u2.len() == u.len() { revealed.clone() } else { (0..n).filter(|i| !u2.contains(i)).map(|i| msgs[i].clone()).collect() };
+            reject(&format!("hidden-set-other#{:?}", u2), &|| verify(&proof, &cpk, st.pk(), &bases, &rev2, &u2, n));
+        }
+    }
+    // other attribute counts
+    for n2 in [n + 1, n.saturating_sub(1)] {
+        // (an extra attribute equal to 0, or a dropped attribute equal to 0, contributes a^0 = 1: the statement
+        // is then the same one and is legitimately accepted; only non-zero differences are asserted)
+        if n2 != n && n2 <= st.bases.0.len() && n2 >= u.iter().max().map(|m| m + 1).unwrap_or(0) && (n2 > n || msgs[n - 1].value != 0) && n2 > 0 {
+            let rev2: Vec<CL03Message> = (0..n2).filter(|i| !u.contains(i)).map(|i| msgs.get(i).cloned().unwrap_or(CL03Message::new(Integer::from(5)))).collect();
+            reject(&format!("attribute-count#{n2}"), &|| verify(&proof, &st.cpk_n(n2), st.pk(), &st.bases_n(n2), &rev2, &u, n2));
+        }
+    }
+    // a proof for another signature / other messages
+    {
+        let mut m2 = msgs.clone();
+        m2[0].value = Integer::from(&m2[0].value ^ 2u32);
+        let sig2 = Signature::<CL03<C>>::sign_multiattr(st.pk(), st.sk(), &bases, &m2);
+        let p2 = Pok::<C>::proof_gen(sig2.cl03Signature(), &cpk, st.pk(), &bases, &m2, &u);
+        if !u.contains(&0) {
+            reject("proof-of-other-signature", &|| verify(&p2, &cpk, st.pk(), &bases, &revealed, &u, n));
+        }
+        // proof generated from a signature that does not match the messages must not verify
+        let p3 = ctx.call("PoKSignature::proof_gen", &case, None, || Ok::<_, ()>(Pok::<C>::proof_gen(sig.cl03Signature(), &cpk, st.pk(), &bases, &m2, &u))).value;
+        if let Some(p3) = p3 {
+            let rev3: Vec<CL03Message> = (0..n).filter(|i| !u.contains(i)).map(|i| m2[i].clone()).collect();
+            reject("proof-from-mismatching-signature", &|| verify(&p3, &cpk, st.pk(), &bases, &rev3, &u, n));
+        }
+    }
+    // field-wise edits of the serialized proof
+    if tamper {
+        let variants = tampered_variants(&j, r, ctx.t(70, 500));
+        ctx.count("proof_leaves", leaves(&j).len() as u64);
+        ctx.count("proof_tampered_variants", variants.len() as u64);
+        par_for_each(&variants, 8, |(kind, path, j2): &(String, String, Value)| {
+            let cls = path_class(path);
+            let full = format!("{}/tamper/{}/{}", case, kind, path);
+            ctx.distinct(&format!("{}/tamper/{}/{}", C::NAME, kind, cls));
+            let Ok(p2) = serde_json::from_value::<Pok<C>>(j2.clone()) else {
+                ctx.count("tampered_json_not_deserializable", 1);
+                return;
+            };
+            let v = ctx.call("PoKSignature::proof_verify", &full, None, || Ok::<_, ()>(verify(&p2, &cpk, st.pk(), &bases, &revealed, &u, n)));
+            if v.value == Some(true) {
+                ctx.violation(&format!("C15:tampered-proof-accepted/{}", cls), json!({"case":full,"edit":kind,"leaf":path}));
+            }
+        });
+    }
+    ctx.sample(json!({"case":case,"hidden":u,"n":n,"proof_verify":true,"integer_leaves":leaves(&j).len(),"tampered":tamper}));
+}
+
+fn run<C: Cs>(ctx: &Ctx, idx: u64, nmax: usize) {
+    let mut r = ctx.rng("c15", idx);
+    let Some(st) = Setup::<C>::new(ctx, nmax + 1) else {
+        ctx.inconclusive("C15: key generation panicked (C18's business)");
+        return;
+    };
+    let other = Setup::<C>::new(ctx, nmax + 1);
+    for n in 1..=nmax {
+        for (k, u) in all_subsets(n).into_iter().enumerate() {
+            let tamper = (n == 2 && u == vec![1]) || (n == 3 && u == vec![0, 2]) || (n == 1 && u.is_empty()) || (!ctx.quick() && k % 4 == 1);
+            one::<C>(ctx, &st, other.as_ref(), &mut r, n, u, tamper);
+        }
+    }
+}
+
+pub fn scenarios(ctx: &Ctx) -> Vec<Scenario> {
+    use zkryptium::cl03::ciphersuites::{CL1024Sha256, CL2048Sha256};
+    let mut v = Vec::new();
+    let nmax = ctx.t(3usize, 5usize);
+    if !ctx.quick() {
+        v.push(scenario("CL2048", move |c| run::<CL2048Sha256>(c, 200, 2)));
+    }
+    for i in 0..ctx.t(1u64, 3u64) {
+        v.push(scenario("CL1024", move |c| run::<CL1024Sha256>(c, i, nmax)));
+    }
+    v
+}
